@@ -16,6 +16,7 @@ Import ListNotations.
 Local Open Scope N_scope.
 
 Definition ERR_DECODE : Z := E_CARQUET_ERROR_DECODE.
+Definition ERR_OUT_OF_MEMORY : Z := E_CARQUET_ERROR_OUT_OF_MEMORY.
 
 Fixpoint bytes_eqb (a b : list N) : bool :=
   match a, b with
@@ -88,6 +89,8 @@ Section WithRle.
     match indices with
     | [] => Err ERR_DECODE
     | bw :: stream =>
+        (* (uint64_t)output_count > SIZE_MAX / sizeof(uint32_t): the index buffer cannot be allocated *)
+        if 2 ^ 62 <=? out_count then Err ERR_OUT_OF_MEMORY else
         match rle_decode bw stream out_count with
         | Err _ => Err ERR_DECODE
         | Fault e => Fault e
